@@ -122,6 +122,20 @@ func genC16Delay(g *Gen) *Scn {
 	d := c16Durations[g.Intn(len(c16Durations))]
 	sc.SetInt("d", d)
 	spec := c16Timeline(g, d, 6)
+	if sc.Sub == "Delay" && g.Bool(0.08) {
+		// a few spaced values that get delivered, then a long burst: many notifications pending at once
+		// after the queue has already been drained (whatever holds them has to grow mid-life)
+		var script []Step
+		for i, k := 0, g.Range(1, 12); i < k; i++ {
+			script = append(script, Step{K: "N", V: 11 + i, Gap: g.PickInt(0, d+1, d+1)})
+		}
+		script = append(script, Step{K: "N", V: 11 + len(script), Gap: d + 1})
+		for i, k := 0, g.Range(30, 70); i < k; i++ {
+			script = append(script, Step{K: "N", V: 11 + len(script)})
+		}
+		script = append(script, Step{K: "C", Gap: g.PickInt(0, 0, 1)})
+		spec = SrcSpec{Mode: "timed", Script: script}
+	}
 	sc.Sources = []SrcSpec{spec}
 	c16Common(g, sc, c16ScriptSpan(spec)+2*d, 1)
 	return sc
@@ -429,6 +443,7 @@ type c16SliceEv struct {
 type c16SliceRec struct {
 	e      *Env
 	Events []c16SliceEv
+	prev   []int
 }
 
 func (r *c16SliceRec) Observer() ro.Observer[[]int] {
@@ -439,7 +454,15 @@ func (r *c16SliceRec) Observer() ro.Observer[[]int] {
 		r.e.Yield()
 	}
 	return ro.NewObserverWithContext(
-		func(ctx context.Context, vs []int) { add(c16SliceEv{K: 'N', Vs: append([]int(nil), vs...)}) },
+		func(ctx context.Context, vs []int) {
+			// the consumer owns the buffers it was handed: it adds a trailer to the previous one when the
+			// next arrives (a write into that buffer's spare capacity, nobody else's business)
+			if r.prev != nil {
+				_ = append(r.prev, -9)
+			}
+			r.prev = vs
+			add(c16SliceEv{K: 'N', Vs: append([]int(nil), vs...)})
+		},
 		func(ctx context.Context, err error) { add(c16SliceEv{K: 'E', Err: err}) },
 		func(ctx context.Context) { add(c16SliceEv{K: 'C'}) },
 	)
